@@ -102,6 +102,13 @@ def evaluate_files(ctx, items, wd):
                 ctx.dist["unclassified-outside-hyp"] += 1
                 continue
             cls = "F5" if (lean_cls == "F5" if hyp else ev["f5"] is True) else None
+            if cls is None:
+                r2 = cs.run_file_scenario(sc, wd, junit=True)
+                if cs.outcome_class(r2["out"]) != oc or _strip(r2["rep"]) != _strip(r["rep"]):
+                    ctx.dist["impl-nonreproducible"] += 1
+                    ctx.notes.append("implementation outcome not reproducible on immediate re-run: "
+                                     f"first={r['out']} second={r2['out']} options={cs.option_argv(sc)}")
+                    continue
             ctx.violation(sc, [r["out"], r["rep"]], "; ".join(bad), cls=cls, what=WHAT)
             continue
         want_skip = cs.py_expected_skipped(sc)
@@ -228,8 +235,19 @@ def replay_witness(ctx, entry):
 def replay(ctx, payload):
     case = payload["case"]
     if "op" in case:
-        print("replay: table-level case", case)
-        return 2
+        from fieldcompare._cli._junit import as_junit_xml_element
+        from fieldcompare._cli._test_suite import TestStatus, TestSuite, TestResult
+        st = TestStatus[case["status"]]
+        el = as_junit_xml_element(TestSuite([TestResult("t", st, "", "out", None)], name="s"), "ts")
+        tc = [e for e in el if e.tag == "testcase"][0]
+        kind = cs.case_kind(tc)
+        counts = [int(el.attrib[k]) for k in ("tests", "failures", "errors", "skipped")]
+        want = [1, int(kind == "failure"), int(kind == "error"), int(kind == "skipped")]
+        print(f"replay: one test of status {st.name}: test case kind={kind} counts={counts} expected={want}")
+        if counts != want:
+            print(f"VIOLATION property=C20 replay={payload.get('_path', '<replay>')}")
+            return 1
+        return 0
     bad, impl, cls = _check_case(ctx, case)
     print(f"replay: impl (exit, report) = {impl}; violated clauses = {bad}; class = {cls}")
     if bad:
